@@ -187,6 +187,7 @@ func (d *Driver) randomScenario(name string, maxClients, maxBatches int, fsOnly 
 	}
 	scn.Readers = r.Intn(3)
 	scn.ReaderRounds = 1 + r.Intn(2)
+	scn.Backup = r.Intn(3) == 0
 	scn.Second = scn.Opts.Path != "" && r.Intn(3) == 0
 	return scn
 }
@@ -561,6 +562,7 @@ func (d *Driver) RunFamily(fam string, runs int) {
 			scn.Opts.Path = "FS"
 			scn.Readers = 2 + r.Intn(2)
 			scn.ReaderRounds = 2 + r.Intn(2)
+			scn.Backup = r.Intn(2) == 0
 			d.simple(scn, NewPrioSched(r.Int63(), 4, 150), nil)
 		}
 	case "conc":
